@@ -40,6 +40,9 @@ ASSUMPTIONS = [
     "Python 3.12.1 an abbreviation that is ambiguous in the PARENT parser even breaks subcommand options)",
     "argparse takes an UNKNOWN option whose text contains a space (`--k=[1, 2]`) for a positional value: such words are not "
     "generated as invalid options (tokenisation is argparse's business)",
+    "the only dataclass is Point(x: int = 0, y: int = 0); a dataclass value is always given whole (both fields: as one JSON "
+    "argv value, as --k.x/--k.y side by side, or as a config section), because partial assignments merge field-wise; a "
+    "wrong-typed scalar for a dataclass group is generated on argv only (inside a --config it is validated lazily, C02)",
     "not generated (model answers EUnmodelled): constructor parameter named subcommand of a class with methods, or named like a method, subcommand named "
     "config, --config sections for a subcommand other than the chosen one, subcommand chosen by the config (C17)",
 ]
@@ -57,7 +60,9 @@ CLS_NAMES = ["Tool", "Model", "Data", "Job", "Task", "Unit", "Node", "Pipe"]
 METH_NAMES = ["train", "test", "show", "apply", "reset", "walk"]
 GRP_KEYS = ["grp", "sub", "more", "misc"]
 WORDS = ["foo", "bar", "baz", "qux", "spam", "eggs", "abc", "xyzzy"]
-TYPES = ["int", "str", "bool", "list", ["opt", "int"], ["opt", "str"], ["opt", "list"]]
+TYPES = ["int", "str", "bool", "list", ["opt", "int"], ["opt", "str"], ["opt", "list"],
+         # the dataclass Point(x: int = 0, y: int = 0): a value that only exists after instantiate_classes
+         "data", ["opt", "data"]]
 # str DEFAULTS also take texts that a YAML reader would not leave a string (given values stay in WORDS: what a
 # text means for a type is the business of C02/C05, what a default means is C12's)
 DEFAULT_WORDS = WORDS + ["null", "~", "NULL", "5", "true", "", "1e3"]
@@ -82,6 +87,8 @@ def gen_value(rng, t, allow_none=True):
         return "" if rng.random() < 0.1 else rng.choice(WORDS)
     if t == "bool":
         return rng.random() < 0.5
+    if t == "data":
+        return {"x": rng.randint(-3, 9), "y": rng.randint(-3, 9)}
     return [rng.randint(0, 9) for _ in range(rng.randint(0, 3))]
 
 
@@ -173,7 +180,8 @@ def gen_components(rng):
 # used only to aim the inputs; verdicts never come from here)
 # ------------------------------------------------------------------------------------------------
 def p_required(p):
-    return p["d"] is None and not isinstance(p["ty"], list)
+    # (a dataclass-typed parameter is a group of options, all fields of Point have defaults)
+    return p["d"] is None and not isinstance(p["ty"], list) and p["ty"] != "data"
 
 
 def p_offered(p):
@@ -214,6 +222,8 @@ def bad_value(rng, t):
     if t == "bool":
         return rng.choice(["abc", 7, [1]])
     if t == "list":
+        return rng.choice(["abc", 3])
+    if t == "data":
         return rng.choice(["abc", 3])
     return None
 
@@ -274,7 +284,9 @@ def gen_line(rng, comps, as_pos, invalid):
                 bv = bad_value(rng, p_ty(p))
                 if p in positional and give_pos > positional.index(p):
                     pos_toks[positional.index(p)] = ["pos", bv]
-                elif p in positional or rng.random() < 0.4:
+                elif p in positional or (rng.random() < 0.4 and base_ty(p_ty(p)) != "data"):
+                    # (not for a dataclass group: a scalar for the group inside a --config is only validated at the
+                    # end of parsing, so a later valid assignment rescues the line - C02's business, see ASSUMPTIONS)
                     cfg_doc.append([p["n"], {"leaf": bv}])
                 else:
                     level_toks.append(["opt", p["n"], bv])
@@ -435,6 +447,20 @@ def fixed_cases():
     out.append({"as_pos": True, "components": {"form": "list", "cs": [b2, h]},
                 "toks": [["cfg", [["build", {"sec": [["beta", {"leaf": "foo"}], ["gamma", {"leaf": 4}]]}]]],
                          ["cfg", [["build", {"sec": []}]]], ["pos", "build"]], "cfg_via": "file"})
+    # dataclass-typed parameters (values exist only after instantiate_classes) in multi-component layouts
+    P = lambda x, y: {"x": x, "y": y}
+    mv = {"k": "fn", "name": "push", "sig": [I("tau", None, "data"), I("nu", 1)]}
+    pt = {"k": "fn", "name": "pull", "sig": [I("phi", None, ["opt", "data"]), I("chi", P(1, 1), "data", "ko")]}
+    rb = {"k": "cls", "name": "Node", "init": [I("rho", None, "data")], "meths": [["walk", [I("xi", P(1, 1), "data"), I("psi", None, ["opt", "data"], "ko")]]]}
+    out.append({"as_pos": True, "components": {"form": "list", "cs": [mv, pt]}, "toks": [["pos", "push"], ["opt", "tau", P(1, 2)]]})
+    out.append({"as_pos": True, "components": {"form": "list", "cs": [mv, pt]}, "toks": [["pos", "push"], ["opt", "tau", P(3, 4)]], "data_nested": True})
+    out.append({"as_pos": True, "components": {"form": "list", "cs": [mv, pt]}, "toks": [["pos", "pull"]]})
+    out.append({"as_pos": True, "components": {"form": "list", "cs": [mv, pt]},
+                "toks": [["cfg", [["pull", {"sec": [["phi", {"leaf": P(5, 6)}]]}]]], ["pos", "pull"], ["opt", "chi", P(7, 8)]]})
+    out.append({"as_pos": True, "components": {"form": "dict", "kids": [["grp", {"k": "grp", "kids": [["Node", rb], ["push", mv]]}]]},
+                "toks": [["pos", "grp"], ["pos", "Node"], ["opt", "rho", P(1, 2)], ["pos", "walk"], ["opt", "psi", P(0, 3)]], "data_nested": True})
+    out.append({"as_pos": True, "components": {"form": "one", "c": rb}, "toks": [["cfg", [["rho", {"leaf": P(2, 2)}], ["walk", {"sec": [["xi", {"leaf": P(4, 4)}]]}]]], ["pos", "walk"]]})
+    out.append({"as_pos": True, "components": {"form": "one", "c": pt}, "toks": [["opt", "phi", P(1, 1)], ["opt", "phi", None]]})
     for o in out:
         o.setdefault("cfg_via", "string")
     return out
@@ -454,7 +480,7 @@ def generate(rng, tier):
                 raise
             cases.append({"as_pos": as_pos, "components": comps, "toks": toks,
                           "cfg_via": "file" if rng.random() < 0.3 else "string",
-                          "opt_two_tokens": rng.random() < 0.2})
+                          "opt_two_tokens": rng.random() < 0.2, "data_nested": rng.random() < 0.4})
     return cases
 
 
@@ -474,7 +500,7 @@ def observe(cases):
 def g_ty(t):
     if isinstance(t, list):
         return "(TOpt %s)" % g_ty(t[1])
-    return {"int": "TInt", "str": "TStr", "bool": "TBool", "list": "TList"}[t]
+    return {"int": "TInt", "str": "TStr", "bool": "TBool", "list": "TList", "data": "TData"}[t]
 
 
 def g_val(v, pre):
@@ -488,6 +514,8 @@ def g_val(v, pre):
         return "(%sStr %s)" % (pre, g_str(v))
     if isinstance(v, list) and all(isinstance(x, int) and not isinstance(x, bool) for x in v):
         return "(%sList %s)" % (pre, g_list([g_Z(x) for x in v], "Z"))
+    if isinstance(v, dict) and set(v) == {"x", "y"} and all(type(x) is int for x in v.values()):
+        return "(%sData %s %s)" % (pre, g_Z(v["x"]), g_Z(v["y"]))
     raise ValueError("value outside the modelled grammar: %r" % (v,))
 
 
